@@ -8,7 +8,8 @@ import re
 from ..cfg import build_cfg, calls_in, node_calls
 from ..core import Ctx, property_info, rule
 from ..model import AnalysisError, FuncInfo, walk_no_nested
-from ..q import A, L, asrc, call_name_of, control_deps, family, flows, none_cond, is_self_attr, kwarg, names_in, return_values, stores, unparse
+from ..q import A, L, func_text, returned_sort_keys, sort_key_attr, value_texts, reach_table, leaves_at, node_containing, asrc, call_name_of, control_deps, family, flows, none_cond, is_self_attr, kwarg, names_in, return_values, stores, unparse
+from ._schedule import processor_table, step_sequence
 
 SCOPE = ("xsdata.codegen", "xsdata.formats.dataclass.generator", "xsdata.formats.dataclass.filters", "xsdata.formats.mixins", "xsdata.models.xsd", "xsdata.models.config",
          "xsdata.models.wsdl", "xsdata.models.dtd", "xsdata.models.mixins", "xsdata.utils.graphs", "xsdata.utils.collections", "xsdata.utils.namespaces", "xsdata.utils.package",
@@ -171,8 +172,8 @@ def unordered_iteration(ctx: Ctx) -> None:
     rv = return_values(rs.node)
     ctx.ob("create_class_list flattens with toposort_flatten (sorted levels)", bool(rv) and all(isinstance(v, ast.Call) and call_name_of(v) == "toposort_flatten" for v in rv), at=rs, construct="class list sanitizer", msg="class order depends on hashing")
     si = ctx.repo.func("xsdata.codegen.resolver:DependenciesResolver.sorted_imports")
-    rv = return_values(si.node)
-    ctx.ob("sorted_imports sorts by name", bool(rv) and all(isinstance(v, ast.Call) and call_name_of(v) == "sorted" and any(k.arg == "key" for k in v.keywords) for v in rv), at=rs, construct="sorted imports", msg="imports unsorted")
+    ks = returned_sort_keys(si)
+    ctx.ob("sorted_imports sorts by name", bool(ks) and all(sort_key_attr(ctx.repo, si, k) == "name" for k in ks), at=si, construct="sorted imports", msg="imports unsorted (or sorted by something else than the name)")
     # consumers of Attr.native_types
     n_nt = 0
     for f in ctx.repo.funcs_in(*SCOPE):
@@ -442,22 +443,14 @@ def clock_random_environment(ctx: Ctx) -> None:
 @rule("C12.R5")
 def renumbering_is_last(ctx: Ctx) -> None:
     """ResetAttributeSequenceNumbers runs after every processor that writes restrictions.sequence; designators do not write it."""
-    init = ctx.repo.func("xsdata.codegen.container:ClassContainer.__init__")
-    procs = None
-    for st, tgt, v in stores(init.node):
-        if is_self_attr(tgt, "processors") and isinstance(v, ast.Dict):
-            procs = v
-    if procs is None:
-        raise AnalysisError("C12.R5: ClassContainer.processors dict literal not found")
-    order = []
-    for k, v in zip(procs.keys, procs.values):
-        if isinstance(v, ast.List):
-            for e in v.elts:
-                if isinstance(e, ast.Call):
-                    order.append((unparse(k), unparse(e.func)))
+    init, order = processor_table(ctx)
+    if order is None:
+        ctx.note("C12.R5 processor table", "form not recognised: schedule obligations have no instance")
+        order = []
     names = [n for _, n in order]
-    ctx.ob("ResetAttributeSequenceNumbers is the last processor of the last step", bool(names) and names[-1] == "ResetAttributeSequenceNumbers" and order[-1][0] == "Steps.FINALIZE", at=init, construct="renumbering last",
-           msg=f"processor order ends with {names[-3:]}: a later processor can introduce raw sequence ids")
+    if order:
+        ctx.ob("ResetAttributeSequenceNumbers is the last processor of the last step", names[-1] == "ResetAttributeSequenceNumbers" and order[-1][0] == "Steps.FINALIZE", at=init, construct="renumbering last",
+               msg=f"processor order ends with {names[-3:]}: a later processor can introduce raw sequence ids")
     # writers of restrictions.sequence among handlers
     writers = set()
     for f in ctx.repo.funcs_in("xsdata.codegen.handlers", "xsdata.codegen.utils", "xsdata.codegen.models"):
@@ -477,9 +470,9 @@ def renumbering_is_last(ctx: Ctx) -> None:
     vals = {k: v.value for k, v in steps.attrs.items() if isinstance(v, ast.Constant)}
     ctx.ob("steps are ordered UNGROUP < FLATTEN < SANITIZE < RESOLVE < CLEANUP < FINALIZE", [vals.get(k) for k in ("UNGROUP", "FLATTEN", "SANITIZE", "RESOLVE", "CLEANUP", "FINALIZE")] == sorted(vals.values()) and len(vals) == 6, at=init,
            construct="step order", msg=f"step values {vals}")
-    pr = ctx.repo.func("xsdata.codegen.container:ClassContainer.process")
-    seq = [unparse(c.args[0]) for c in calls_in(pr.node) if unparse(c.func) == "self.process_classes"]
-    ctx.ob("process() runs the steps in increasing order and designates last", seq == ["Steps.UNGROUP", "Steps.FLATTEN", "Steps.SANITIZE", "Steps.RESOLVE", "Steps.CLEANUP", "Steps.FINALIZE"] and _designate_last(pr), at=pr, construct="process order", msg=f"order {seq}")
+    pr, seq = step_sequence(ctx)
+    if seq is not None:
+        ctx.ob("process() runs the steps in increasing order and designates last", seq == ["Steps.UNGROUP", "Steps.FLATTEN", "Steps.SANITIZE", "Steps.RESOLVE", "Steps.CLEANUP", "Steps.FINALIZE"] and _designate_last(pr), at=pr, construct="process order", msg=f"order {seq}")
 
 
 def _designate_last(pr: FuncInfo) -> bool:
@@ -499,7 +492,11 @@ def routes_agree(ctx: Ctx) -> None:
     if not comps:
         # loop form: params[key.replace("__", ".")] = value  under  `value is not None` (and nothing else)
         sts = [st for st, tgt, v in stores(gen.node) if isinstance(tgt, ast.Subscript) and any(r in list(ast.walk(tgt.slice)) for r in rep)]
-        ok = bool(sts) and all({(t, pol) for t, pol, _ in control_deps(gen, st)} <= {("_isnotNone", True), ("_isNone", False)} and none_cond(control_deps(gen, st), want_none=False) for st in sts)
+        def _is_none_test(t) -> bool:
+            e = t.ast
+            return isinstance(e, ast.Compare) and len(e.ops) == 1 and isinstance(e.ops[0], (ast.Is, ast.IsNot)) and any(isinstance(x, ast.Constant) and x.value is None for x in (e.left, e.comparators[0]))
+
+        ok = bool(sts) and all(all(_is_none_test(t) for _, _, t in control_deps(gen, st)) and none_cond(control_deps(gen, st), want_none=False) for st in sts)
     ctx.ob("cli.generate maps option names back with k.replace('__', '.') and drops unset (None) options", ok, at=gen, construct="option mapping",
            msg="flags and config file disagree")
     gg = build_cfg(gen.node)
@@ -550,3 +547,52 @@ def no_state_survives_a_run(ctx: Ctx) -> None:
     lru = [f.qual for f in ctx.repo.funcs_in("xsdata.codegen", "xsdata.formats.dataclass.generator", "xsdata.formats.dataclass.filters") if any("lru_cache" in d or d.endswith(".cache") or d == "cache" for d in f.decorators)]
     ctx.ob("no function of the generator proper is memoised across runs", not lru, at=ctx.repo.module("xsdata.codegen.container"), construct="generator memo functions", msg=f"memoised: {lru}")
     ctx.note("C12.R7 class-level container writes", n)
+
+
+@rule("C12.R8")
+def cache_holds_the_parsed_classes(ctx: Ctx) -> None:
+    """ResourceTransformer.process pickles self.classes for the sources cache BEFORE the analyser runs: the analyser rewrites the very
+    objects in self.classes in place (and stores id()-based references in them), so a cache written afterwards makes the second run differ."""
+    pr = ctx.repo.func("xsdata.codegen.transformer:ResourceTransformer.process")
+    g = build_cfg(pr.node)
+    dumps = [n for n in g.stmts() for c in node_calls(n) if call_name_of(c) in ("dumps", "dump") and c.args and "self.classes" in value_texts(pr, n, c.args[0])]
+    loads = [n for n in g.stmts() for c in node_calls(n) if call_name_of(c) in ("loads", "load")]
+    proc = [n for n in g.stmts() for c in node_calls(n) if func_text(pr, c) in ("self.process_classes", "self.analyze_classes")]
+    if not dumps or not proc:
+        ctx.abstain("cache write / analysis calls of ResourceTransformer.process", at=pr)
+        return
+    for d in dumps:
+        ctx.ob("the sources cache is written before process_classes() (never after the analyser mutated the classes)", not any(d.id in g.reachable([p.id]) for p in proc), at=pr, node=d.ast, construct="cache before analysis",
+               msg="pickle.dumps(self.classes) can run after process_classes(): the cached classes are already flattened / renamed and carry references of a dead process - the next run with --cache fails or differs")
+    for ld in loads:
+        ctx.ob("a cached class list is loaded before process_classes()", all(p.id in g.reachable([ld.id]) and ld.id not in g.reachable([p.id]) for p in proc), at=pr, node=ld.ast, construct="cache load before analysis", msg="cache loaded after analysis")
+
+
+@rule("C12.R9")
+def scc_ignores_edges_into_finished_components(ctx: Ctx) -> None:
+    """strongly_connected_components (path-based): an edge to a vertex that was visited before merges boundaries only if that vertex is still
+    open - a second membership test (finished / on-stack) beside `w not in index` guards the boundary pops.  Without it components of
+    unrelated classes are merged depending on the (hash-ordered) visiting order: which classes share a module changes with the hash seed."""
+    from ..q import callable_info
+
+    fn = ctx.repo.func("xsdata.utils.graphs:strongly_connected_components")
+    scopes = [fn] + [ci[0] for n in ast.walk(fn.node) if isinstance(n, ast.FunctionDef) and n is not fn.node for ci in [callable_info(ctx.repo, fn, ast.Name(id=n.name, ctx=ast.Load()))] if ci]
+    found = 0
+    for fi in scopes:
+        g = build_cfg(fi.node)
+        for n in g.nodes:
+            pops = [c for c in node_calls(n)] if n.kind in ("stmt",) else []
+            if not any(isinstance(c.func, ast.Attribute) and c.func.attr == "pop" and not c.args for c in pops):
+                continue
+            if n.id not in g.reachable([m for m, _ in g.succ[n.id]]):
+                continue  # not inside a loop
+            # pops inside the loop over the successors of a vertex: which membership tests decide them?
+            members = {t.id: t for _, _, t in control_deps(fi, n) if isinstance(t.ast, ast.Compare) and len(t.ast.ops) == 1 and isinstance(t.ast.ops[0], (ast.In, ast.NotIn))}
+            if not members:
+                continue
+            found += 1
+            containers = {ast.unparse(t.ast.comparators[0]) for t in members.values()}
+            ctx.ob("SCC: boundary pops for a non-tree edge are guarded by a second membership test (vertex not finished / still on the stack)", len(containers) >= 2, at=fn, node=n.ast, construct="scc cross edge guard",
+                   msg=f"only {sorted(containers)} is consulted: an edge into an already emitted component pops boundaries of the current path")
+    if not found:
+        ctx.abstain("boundary pops of strongly_connected_components", at=fn)
